@@ -53,6 +53,41 @@ def run(cmd, cwd=None, env=None, timeout=None, check=True, capture=True, stdin=N
 _built = {}
 
 
+def _go_build_install(cmd, out, cwd, env):
+    """go build -o <out>, but never write <out> in place: the linker's output goes to a private file next to it and is
+    renamed over <out> when complete.  Checks may run side by side and all build the same .work/bin/<name>; a daemon
+    started from a file that another build is rewriting at that moment dies at once (or cannot be executed at all),
+    which would be reported as a failure of the scenario.  A process already running keeps its (unlinked) file; whoever
+    executes the path sees either the old or the new complete binary.  The private file starts as a copy of <out> so
+    that go build still recognises an up-to-date target and skips the link."""
+    tmp = "%s.build-%d" % (out, os.getpid())
+    try:
+        if os.path.isfile(out):
+            shutil.copy2(out, tmp)
+    except OSError:
+        pass
+    i = cmd.index("-o")
+    p = run(cmd[:i + 1] + [tmp] + cmd[i + 2:], cwd=cwd, env=env, timeout=1500, check=False)
+    if p.returncode == 0 and os.path.isfile(tmp):
+        os.chmod(tmp, 0o755)
+        os.replace(tmp, out)
+    else:
+        try:
+            os.remove(tmp)
+        except OSError:
+            pass
+    return p
+
+
+def private_copy(src, wd, name=None):
+    """A copy of a built binary that belongs to this run alone (receptor daemons re-execute their own path for every
+    command runner, so the path must not change under them while a scenario runs)."""
+    dst = os.path.join(wd, name or os.path.basename(src))
+    shutil.copyfile(src, dst)
+    os.chmod(dst, 0o755)
+    return dst
+
+
 def build_harness(name="vh", tags="verif", race=False):
     """Build a harness command from /verif/harness against /repo's current working tree.
     race=True: a second binary <name>_race built with the Go race detector (needs cgo; returns None if that build is
@@ -67,7 +102,7 @@ def build_harness(name="vh", tags="verif", race=False):
     env = go_env()
     if race:
         env = dict(env, CGO_ENABLED="1")
-    p = run(cmd, cwd=HARNESS, env=env, timeout=1500, check=False)
+    p = _go_build_install(cmd, out, HARNESS, env)
     if p.returncode != 0:
         if race:
             _built[key] = None
@@ -85,7 +120,7 @@ def build_receptor(tags="verif"):
     out = os.path.join(WORKBASE, "bin", "receptor")
     os.makedirs(os.path.dirname(out), exist_ok=True)
     cmd = ["go", "build", "-tags", tags, "-o", out, "./cmd/receptor-cl"]
-    p = run(cmd, cwd=REPO, env=go_env(), timeout=1500, check=False)
+    p = _go_build_install(cmd, out, REPO, go_env())
     if p.returncode != 0:
         raise Inconclusive("receptor build failed:\n" + p.stdout[-6000:])
     _built[key] = out
